@@ -855,7 +855,7 @@ impl Property for Possible {
     fn rule(&self) -> String {
         "random sets of 1-4 possible values with 0-2 aliases each (letters in mixed case, digits, '-', a non-ASCII letter with a simple \
          case pair) x ignore_case on/off x candidates: a name, an alias, a case flip of either, a prefix, an extension, an unrelated \
-         word, the empty string. Oracle: member iff equal to a declared name/alias (after lower-casing both iff ignore_case); accepted \
+         word, the empty string, a compatibility character (KELVIN SIGN, ANGSTROM SIGN) in place of its ordinary letter. Oracle: member iff equal to a declared name/alias (after lower-casing both iff ignore_case); accepted \
          value equals the input; rejection is InvalidValue/ValueValidation naming the argument. Non-trivial: candidate is an alias, a \
          case variant, or a prefix/extension of a spelling."
             .into()
@@ -869,7 +869,7 @@ impl Property for Possible {
     fn decode(&self, t: &mut Tape<'_>) -> PvCase {
         let mut pool: Vec<&str> = vec![
             "fast", "Fast", "FAST", "slow", "auto", "Auto", "quick", "QUICK", "a", "A", "x-y", "X-Y", "1", "\u{e9}t\u{e9}", "\u{c9}T\u{c9}", "never",
-            "Never", "fa", "dry_run", "[auto]", "a@b", "x^y",
+            "Never", "fa", "dry_run", "[auto]", "a@b", "x^y", "ok", "Kind", "\u{e5}r", "\u{c5}R",
         ];
         let mut values = Vec::new();
         let n = t.range(1, 4);
@@ -892,8 +892,19 @@ impl Property for Possible {
         let ignore_case = t.bool();
         let spellings: Vec<String> = values.iter().flat_map(|(n, a)| std::iter::once(n.clone()).chain(a.iter().cloned())).collect();
         let base = t.pick(&spellings).clone();
-        let input = match t.weighted(&[3, 3, 1, 1, 1, 1, 2]) {
+        let input = match t.weighted(&[3, 3, 1, 1, 1, 1, 2, 2]) {
             0 => base,
+            7 => {
+                // a compatibility character with the same case folding but another UTF-8 length: KELVIN SIGN for k / K,
+                // ANGSTROM SIGN for U+00E5 / U+00C5 (equal under Unicode case folding, unrelated under ASCII folding)
+                base.chars()
+                    .map(|c| match c {
+                        'k' | 'K' => '\u{212a}',
+                        '\u{e5}' | '\u{c5}' => '\u{212b}',
+                        c => c,
+                    })
+                    .collect()
+            }
             6 => {
                 // flip bit 0x20 of one ASCII byte: a case flip for a letter, another character for anything else
                 let mut b = base.clone().into_bytes();
